@@ -192,6 +192,95 @@ def gen_image(api):
     api.ok('leaves', 'image_placement', fns=3)
 
 
+MARKER_REL = 'crates/usvg/src/parser/marker.rs'
+
+
+def gen_marker(api, aids):
+    """Gen/LeafMarker.v: marker.rs convert_rect, stroke_scale, the clip decision/rectangle and the instance transform of `resolve`."""
+    rs = api.rs2coq
+    U = api.Unsupported
+    src = api.rd(MARKER_REL)
+    for need in ('RefX', 'RefY', 'MarkerWidth', 'MarkerHeight'):
+        if need not in aids:
+            raise U("units.rs percent table has no arm for AId::%s" % need)
+    paths = dict(('AId::' + a, 'A_' + a) for a in aids)
+    cfg = dict(dom='Q', types={'SvgNode': 'mnode', 'State': 'vstate'}, paths=paths,
+               methods={'convert_user_length': 'mk_user_length'},
+               calls={'NonZeroRect::from_xywh': 'nzrect_from_xywh', 'Length::zero': 'len_zero', 'Length::new_number': 'len_num'},
+               ret='option qrect')
+    d_rect = rs.translate_fn(src, 'convert_rect', cfg, 'marker_rect')
+    # stroke_scale: 1 for markerUnits=userSpaceOnUse, else the (valid) stroke width of the path
+    p_, r_, b_ = rs.find_fn(src, 'stroke_scale')
+    bn = re.sub(r"\s+", " ", b_)
+    m = re.match(r"\{ match marker_node\.attribute\(AId::MarkerUnits\) \{ Some\(\"userSpaceOnUse\"\) => NonZeroPositiveF32::new\(([\d.]+)\), "
+                 r"_ => path_node\.resolve_valid_length\(AId::StrokeWidth, state, ([\d.]+)\), \} \}$", bn.strip())
+    if not m:
+        raise U("stroke_scale: unexpected shape")
+    em0 = rs.Emitter(dict(dom='Q'))
+    one, defsw = em0.num(m.group(1)), em0.num(m.group(2))
+    # resolve: overflow test, clip rectangle, instance transform
+    p_, r_, body = rs.find_fn(src, 'resolve')
+    nb = re.sub(r"\s+", " ", re.sub(r"//[^\n]*", "", body))
+    if not re.search(r"let stroke_scale = stroke_scale\(shape_node, marker_node, state\)\?\.get\(\); let r = convert_rect\(marker_node, state\)\?; "
+                     r"let view_box = marker_node\.parse_viewbox\(\)\.map\(\|vb\| ViewBox \{ rect: vb, aspect: marker_node "
+                     r"\.attribute\(AId::PreserveAspectRatio\) \.unwrap_or_default\(\), \}\);", nb):
+        raise U("resolve: the prologue (stroke_scale, r, view_box) has an unexpected shape")
+    mo = re.search(r"let has_overflow = \{ let overflow = marker_node\.attribute\(AId::Overflow\); (overflow\.is_none\(\) \|\| )?"
+                   r"((?:overflow == Some\(\"[\w-]+\"\)(?: \|\| )?)+) \};", nb)
+    if not mo:
+        raise U("resolve: `has_overflow` has an unexpected shape")
+    ov_none = bool(mo.group(1))
+    ov_vals = re.findall(r"Some\(\"([\w-]+)\"\)", mo.group(2))
+    mc = re.search(r"let clip_path = if has_overflow \{ let clip_rect = if let Some\(vbox\) = view_box \{ (.+?) \} else \{ (.+?) \}; ", nb)
+    if not mc or not re.search(r"PathBuilder::from_rect\( clip_rect\.to_rect\(\), \)", nb) or len(re.findall(r"PathBuilder::from_rect\(", nb)) != 1:
+        raise U("resolve: the clip rectangle has an unexpected shape")
+    ecfg = dict(dom='Q', fields={'rect': 'vb_rect', 'x': 'pt_x', 'y': 'pt_y'},
+                methods={'size': 'r_size', 'to_non_zero_rect': 'size_to_rect', 'width': 'g_width', 'height': 'g_height', 'x': 'rx', 'y': 'ry',
+                         'to_transform': 'to_transform', 'get_scale': 'ts_get_scale', 'pre_scale': 'ts_pre_scale',
+                         'pre_translate': 'ts_pre_translate', 'pre_concat': 'ts_concat'},
+                calls={'Transform::from_translate': 'from_translate', 'size_from_wh_pos': 'size_from_wh_pos'})
+
+    def ex(text):
+        return rs.Emitter(dict(ecfg)).expr(rs.Parser(rs.tokenize(text)).expr())
+    clip_some, clip_none = ex(mc.group(1)), ex(mc.group(2))
+    md = re.search(r"let draw_marker = \|p: tiny_skia_path::Point, idx: usize\| \{ (let mut ts = Transform::from_translate\(p\.x, p\.y\);) "
+                   r"let angle = match convert_orientation\(marker_node\) \{.*?\}; "
+                   r"(if !angle\.approx_zero_ulps\(4\) \{ ts = ts\.pre_rotate\(angle\); \}) "
+                   r"if let Some\(vbox\) = view_box \{ (.*?) \} else \{ (.*?) \} "
+                   r"(ts = ts\.pre_translate\(.*?\);) let mut g = Group \{ transform: ts, abs_transform: parent\.abs_transform\.pre_concat\(ts\), "
+                   r"clip_path: clip_path\.clone\(\), \.\.Group::empty\(\) \};", nb)
+    if not md:
+        raise U("resolve: the draw_marker closure (instance transform) has an unexpected shape")
+    pre = md.group(1) + " " + md.group(2).replace("!angle.approx_zero_ulps(4)", "!angle_is_zero").replace("ts.pre_rotate(angle)", "ts.pre_concat(rot)") + ";"
+    then_t, n_sz = re.subn(r"match Size::from_wh\((.+?)\) \{ Some\(v\) => v, None => return, \}", r"size_from_wh_pos(\1)", md.group(3))
+    if n_sz != 1 or 'return' in then_t or '?' in then_t:
+        raise U("resolve: the viewBox branch of draw_marker has an unexpected shape")
+
+    def blk(text):
+        return rs.Emitter(dict(ecfg)).block(rs.parse_body("{ " + text + " }"), cont='ts')
+    s_pre, s_then, s_else, s_post = blk(pre), blk(then_t), blk(md.group(4)), blk(md.group(5))
+    out = [api.HEADER, "From Coq Require Import String.",
+           "From RV Require Import Model.Base Model.GeomPrims Gen.Units Model.SvgSize Gen.PctAxis Model.ViewportPrims Gen.LeafViewBox.",
+           "Import ListNotations.\nLocal Open Scope Q_scope.\n",
+           "(* %s :: convert_rect: (refX, refY, markerWidth, markerHeight) *)\n%s\n" % (MARKER_REL, d_rect),
+           "(* %s :: stroke_scale *)" % MARKER_REL,
+           "Definition marker_stroke_scale (units_user_space : bool) (valid_stroke_width : option Q) : option Q :=\n"
+           "  if units_user_space then Some %s else valid_stroke_width.   (* resolve_valid_length(StrokeWidth, default %s) *)\n" % (one, defsw),
+           "(* %s :: resolve, `has_overflow`: when the marker content is clipped *)" % MARKER_REL,
+           "Definition marker_clip_values : list string := [%s]." % "; ".join('"%s"%%string' % v for v in ov_vals),
+           "Definition marker_has_overflow (o : option string) : bool :=\n  match o with None => %s | Some s => existsb (String.eqb s) marker_clip_values end.\n"
+           % ('true' if ov_none else 'false'),
+           "(* %s :: resolve, `clip_rect` (in the coordinate system of the marker content) *)" % MARKER_REL,
+           "Definition marker_clip_rect (r : qrect) (view_box : option viewbox) : qrect :=\n  match view_box with Some vbox => %s | None => %s end.\n"
+           % (clip_some, clip_none),
+           "(* %s :: resolve, draw_marker: the transform of one marker instance at vertex p.  The orientation is a parameter:\n"
+           "   angle_is_zero = angle.approx_zero_ulps(4), rot = the matrix of pre_rotate(angle) (trigonometry is outside Q) *)" % MARKER_REL,
+           "Definition marker_ts (p : qpoint) (angle_is_zero : bool) (rot : ts) (r : qrect) (stroke_scale : Q) (view_box : option viewbox) : ts :=\n"
+           "  let ts := %s in\n  let ts := match view_box with Some vbox => %s | None => %s end in\n  %s.\n" % (s_pre, s_then, s_else, s_post)]
+    api.write_gen('LeafMarker.v', "\n".join(out))
+    api.ok('leaves', 'marker_viewport', fns=5)
+
+
 def generate(api):
     rs = api.rs2coq
     try:
@@ -203,6 +292,10 @@ def generate(api):
     except (api.Unsupported, OSError, ValueError, IndexError) as e:
         api.broken('table', 'units.pct_axis', PROPS, e)
         return
+    try:
+        gen_marker(api, aids)
+    except (api.Unsupported, OSError, ValueError, IndexError, KeyError) as e:
+        api.broken('leaf', 'marker.viewport', PROPS, e)
     try:
         src = api.rd(USE_REL)
         Em = make_emitter(rs)
